@@ -204,7 +204,7 @@ def obligations(tier):
             extra.append(c11.norm_ob(time, dx, 1, 2, 2))
     extra.append(c11.norm_ob(True, 1, 1, 4, 2))
     if tier == "thorough":
-        extra.append(c11.norm_ob(True, 2, 1, 3, 2))
+        extra.append(c11.norm_ob(True, 2, 1, 4, 2))      # the code requires the sample count to be a multiple of the time count
     for o in extra:
         o.name = o.name.replace("C11/", "C05/").replace("equals_pointwise_over_grid", "ensures.grid")
         obs.append(o)
